@@ -25,6 +25,11 @@ class _MetaArray(type):
 
         elemtype, count = slice
 
+        # subscripting an already parametrised class (Array[Bit, 2][Bit, 3]) refers to the family,
+        # the new class must not inherit from (or be cached relative to) the class it was reached through
+        if "_SubTypes" not in vars(cls):
+            cls = next((c for c in cls.__mro__ if "_SubTypes" in vars(c)), cls)
+
         assert isinstance(elemtype, type)
         assert isinstance(count, int)
 
